@@ -268,6 +268,16 @@ def run(prog: Program, chk: Check):
     okk = len(adopt) == 1 and not guards.any_path_implies(hgs.at(adopt[0]), guards.parse("self._module_id == 0"))
     K.decide(okk, fkey(ch, "adopt-ack-id"), where(ch), "self._module_id = ack.header.dest_mod_id under `self._module_id == 0`",
              "_connect_helper does not adopt the acknowledged id under the == 0 guard")
+    # a client created with id 0 asks for a dynamic id on EVERY connect: the reset dominates the CONNECT_V2 construction
+    resets = [n for n in hg.nodes if n.kind == "stmt" and isinstance(n.ast, ast.Assign) and any(path_of(t) == "self._module_id" for t in n.ast.targets)
+              and isinstance(n.ast.value, ast.Constant) and n.ast.value.value == 0]
+    modid = [n for n in hg.nodes if n.kind == "stmt" and isinstance(n.ast, ast.Assign) and any(isinstance(t, ast.Attribute) and t.attr == "mod_id" and path_of(t.value) == v2[0] for t in n.ast.targets)]
+    okd = bool(resets) and bool(modid) and all(not guards.any_path_implies(hgs.at(r), guards.parse("self._dynamic_id")) for r in resets)
+    if okd:
+        # on the paths where the client is dynamic (false edge of the `self._dynamic_id` test excluded) the reset precedes the store
+        okd = not flow.must_precede(hg, resets, modid, follow=lambda e: not (e.cond is not None and norm(e.cond) == "self._dynamic_id" and e.pol is False))
+    K.decide(okd, fkey(ch, "dynamic-id-requested-on-every-connect"), where(ch), "`if self._dynamic_id: self._module_id = 0` precedes the CONNECT_V2 id on every connect path",
+             "_connect_helper can send a stale previously assigned dynamic id instead of 0 (reconnect after a lost link): the manager treats it as an explicit id")
     chk.units.update({"option_call_sites": len(A.instances)})
 
 
